@@ -267,6 +267,9 @@ func TestC04(t *testing.T) {
 		}
 	}
 	rec.Exhaustive("single-feature scope matrix (EKU x policy set incl. near-miss OIDs and two-policy sets x mail-SAN on 3 bases)", true)
+	// (a') the soak history: after many distinct certificates of changing scope, an earlier one still gets what
+	// the reference lifecycle says (scope, applicability and window are functions of the object alone)
+	soakHistory(rec, stats.Scale(1600, 12000), soakVisitC04, func(s string) { t.Fatalf("%s", s) })
 	// (b) corpus as is
 	co := gen.LoadCorpus()
 	idx := 0
